@@ -427,9 +427,17 @@ pub fn run_backend<B: Backend>(rec: &mut Recorder, thorough: bool, seed: u64) {
         };
         let t = UnsealedToken::<B::V, Public, crate::payload::Raw>::new(crate::payload::Raw(b"m".to_vec())).seal(k, &[]).map(|t| t.to_string());
         let verified = t.ok().and_then(|s| s.parse::<paseto_core::tokens::SealedToken<B::V, Public, crate::payload::Raw>>().ok()).and_then(|t| t.unseal(&pk, &[], &NoValidation::dangerous_no_validation()).ok()).is_some();
-        // and a clone of the key behaves the same
-        let pk2 = Key::<B::V, Secret>::clone(k).public_key();
-        json!({"pub_matches": half_ok && key_bytes(&pk2) == pkb, "sign_verify": verified, "pub_bytes_len": pkb.len()})
+        // and a clone of the key behaves the same: same public key, and what the CLONE signs verifies under the original's public key
+        let kc = Key::<B::V, Secret>::clone(k);
+        let pk2 = kc.public_key();
+        let tc = UnsealedToken::<B::V, Public, crate::payload::Raw>::new(crate::payload::Raw(b"m".to_vec())).seal(&kc, &[]).map(|t| t.to_string());
+        let verified_clone = tc.ok().and_then(|s| s.parse::<paseto_core::tokens::SealedToken<B::V, Public, crate::payload::Raw>>().ok()).and_then(|t| t.unseal(&pk, &[], &NoValidation::dangerous_no_validation()).ok()).is_some();
+        // a clone of a clone, after the first clone is gone
+        let kcc = Key::<B::V, Secret>::clone(&kc);
+        drop(kc);
+        let tcc = UnsealedToken::<B::V, Public, crate::payload::Raw>::new(crate::payload::Raw(b"m".to_vec())).seal(&kcc, &[]).map(|t| t.to_string());
+        let verified_cc = tcc.ok().and_then(|s| s.parse::<paseto_core::tokens::SealedToken<B::V, Public, crate::payload::Raw>>().ok()).and_then(|t| t.unseal(&pk2, &[], &NoValidation::dangerous_no_validation()).ok()).is_some();
+        json!({"pub_matches": half_ok && key_bytes(&pk2) == pkb, "sign_verify": verified && verified_clone && verified_cc, "pub_bytes_len": pkb.len()})
     };
     for o in generic.iter().chain(offers.iter()) {
         observe::<B, Secret>(rec, "secret", o, &sign_check);
